@@ -147,11 +147,17 @@ def constGraph (exprs : AMap Ex) : GBuild :=
   exprs.foldl (fun g (p : String × Ex) =>
     ((dedupS (refs p.2)).foldl (fun g inName => g.insert inName p.1) g).addNode p.1) {}
 
+/-- The resolved constants as a finite map in canonical form (listed in declaration order).  The Rust value is a
+    `HashMap`: it has no order of its own, and every iteration over one goes through `Orders`; so the model keeps
+    none of the order in which the entries were inserted. -/
+def canonConsts (exprs : AMap Ex) (res : AMap WireValue) : AMap WireValue :=
+  exprs.filterMap fun p => (res.get? p.1).map fun v => (p.1, v)
+
 def resolveConstants (fl : Flags) (o : Orders) (exprs : AMap Ex) : C (AMap WireValue) :=
   match (constGraph exprs).sort o with
   | .ok sorted =>
       let (res, errs) := resolveLoop fl exprs sorted [] []
-      if errs.isEmpty then .ok res else .error errs
+      if errs.isEmpty then .ok (canonConsts exprs res) else .error errs
   | .cycle c => .error [⟨.WireLoop, c⟩]
   | .panic => .error panicDiag
 
